@@ -10,7 +10,11 @@ equality, one grid unit below or one above:
    twc    arrival_time <= late_tw                      (customer deadline)
    twd    max(arrival, early) + service + d_j0 <= late_tw[depot]  (closed routes)
    odep   open route whose (uncharged) way back would miss the depot deadline (checker site)
-   speed  speed 2.0 / 0.5 (travel time != distance)
+Every time site (twc, twd, odep) is built at speed 1, 1/2 and 2 in rotation (powers of two keep distance / speed exact), so
+that travel time != distance exactly where a time comparison is binding; for twd / odep the customers' own windows are loose
+and only the depot deadline is tight, and the last customer of the route either is served on arrival or waits.  Two target
+walks per instance take the tight step (a) as the last customer before an explicit depot return, (b) as the last customer
+of the episode.
 """
 from __future__ import annotations
 
@@ -81,8 +85,15 @@ class MTVRPAdapter(RoutingAdapter):
     tiny = 3
 
     # ---------------------------------------------------------------- variants
+    # speeds per time site (rotating; the first closed preset with windows gets 1/2 and 2) and, per speed, the offsets of
+    # the tight deadline: -1 = the route misses the deadline by one grid unit (a too lax mask shows in C01), 0 / +1 = it
+    # just makes it (a too tight mask shows in C05)
+    SPEED_ROT = {"twd": [0.5, 2.0, 1.0], "twc": [1.0, 2.0, 0.5], "odep": [1.0, 0.5, 2.0]}
+    DELTA_ROT = {0.5: [-1, 0, 1], 2.0: [0, 1, -1], 1.0: [0, -1, 1]}
+
     def variants(self, tier):
         self._exact = []          # (env, variant, td, meta) of the exact-grid instances of the collection that starts now
+        self._rot_site, self._rot_delta = {}, {}
         out = []
         if tier == "quick":
             sizes = [3, 5, 4, 7]
@@ -126,18 +137,32 @@ class MTVRPAdapter(RoutingAdapter):
         td = env.generator(batch_size=[k])
         for r in range(k):
             out.append((td[r:r + 1].clone(), {"kind": "generator"}))
-        # the comparison sites this variant has; the feature-specific ones first so that the quick tier covers them
-        must = ((["odep" if f["O"] else "twd", "twc"]) if f["TW"] else []) + (["limit"] if f["L"] else []) + (["capb"] if f["B"] else [])
-        opt = ["capl"] + (["speed", "twc"] if f["TW"] else [])
+        # the comparison sites this variant has; the feature-specific ones first so that the quick tier covers them.
+        # closed routes with windows: the depot-return site twice (two different speeds)
+        must = ((["odep", "twc"] if f["O"] else ["twd", "twd", "twc"]) if f["TW"] else []) + (["limit"] if f["L"] else []) + (["capb"] if f["B"] else [])
+        opt = ["capl"] + (["twc"] if f["TW"] else [])
         sites = must + opt
-        ke = 4 if tier == "quick" else 6
+        ke = (5 if f["TW"] else 4) if tier == "quick" else (7 if f["TW"] else 6)
         for rep in range(ke):
             site = sites[rep] if rep < len(sites) else rng.choice(sites)
-            delta = rng.choice([0, 0, 1, -1])
-            td1, route = self.exact_instance(rng, n, f, site, delta)
-            meta = {"kind": "exact/%s%+d" % (site, delta), "target_route": route}
+            speed, delta = 1.0, rng.choice([0, 0, 1, -1])
+            if site in self.SPEED_ROT:
+                k = self._rot_site.get(site, 0)
+                self._rot_site[site] = k + 1
+                speed = self.SPEED_ROT[site][k % 3]
+                kd = self._rot_delta.get((site, speed), 0)
+                self._rot_delta[(site, speed)] = kd + 1
+                delta = self.DELTA_ROT[speed][kd % 3]
+            td1, route = self.exact_instance(rng, n, f, site, delta, speed)
+            meta = {"kind": "exact/%s%+d@speed%g" % (site, delta, speed), "target_route": route}
             out.append((td1, meta))
             self._exact.append((env, variant, td1, meta))
+        if variant["preset"] == "vrptw":
+            # two fixed tiny closed-route instances in which ONLY the depot-return comparison binds and speed != 1
+            for name, td1, route in self.speed_depot_instances():
+                meta = {"kind": "exact/hand-" + name, "target_route": route}
+                out.append((td1, meta))
+                self._exact.append((env, dict(variant, num_loc=2), td1, meta))
         return out
 
     @staticmethod
@@ -158,22 +183,44 @@ class MTVRPAdapter(RoutingAdapter):
             "speed": torch.tensor([[speed]], dtype=torch.float32),
         }, batch_size=[1])
 
-    def exact_instance(self, rng, n, f, site, delta):
-        """exact-grid instance with n customers; everything in integer grid units until the very end"""
+    def speed_depot_instances(self):
+        """depot at the origin, customers 1, 2 at distance 40/128 from it and 64/128 from each other, service 8/128, customer
+        windows wide open; closed routes.
+        half: speed 1/2 (travel time = 2 x distance); route 0-2-1-0 is back at 304, the depot closes at 303 (one unit early):
+              after 2 the mask must refuse 1 (a return test that adds the distance instead of the travel time admits it).
+        two:  speed 2 (travel time = distance / 2); route 0-1-2-0 is back at 88 = the depot deadline: feasible, 2 must be
+              offered after 1 (a return test that adds the distance hides it)."""
+        P = self.P
+        pts = [P(0, 0), P(24, 32), P(24, -32)]
+        W = 1000 / U
+        out = []
+        out.append(("speed-half-depot-1", self.mk_td(pts, [0, .25, .25], [0, 0, 0], tw=[[0, 303 / U], [0, W], [0, W]],
+                                                     svc=[0, 8 / U, 8 / U], speed=0.5), [2, 1]))
+        out.append(("speed-two-depot+0", self.mk_td(pts, [0, .25, .25], [0, 0, 0], tw=[[0, 88 / U], [0, W], [0, W]],
+                                                    svc=[0, 8 / U, 8 / U], speed=2.0), [1, 2]))
+        return out
+
+    def exact_instance(self, rng, n, f, site, delta, speed=1.0):
+        """exact-grid instance with n customers; everything in grid units (Fractions) until the very end"""
         from rl4co.utils.ops import get_distance
         pts = envh.integral_coords(rng, n + 1)
         locs = torch.tensor(pts, dtype=torch.float32)
         Df = get_distance(locs[:, None, :], locs[None, :, :])
         D = [[int(round(float(v) * U)) for v in row] for row in Df.tolist()]       # integers (self-checked by is_exact)
-        speed = 1.0
-        if site == "speed":
-            speed = rng.choice([2.0, 0.5])
         sp = Fraction(speed)
         T = [[Fraction(v) / sp for v in row] for row in D]
         opn = f["O"]
         # ---- target route: linehaul members first, then backhaul members
         m = rng.randint(1, min(n, 3))
+        if site == "twd" and n >= 2:
+            m = max(m, 2)
         members = rng.sample(range(1, n + 1), m)
+        if site in ("twd", "odep"):
+            # the customer farthest from the depot is on the target route, so that no other customer's out-and-back trip
+            # is longer than the route and the depot deadline can be made tight for the route without making a customer unservable
+            far = max(range(1, n + 1), key=lambda j: D[0][j])
+            if far not in members:
+                members[0] = far
         is_b = [False] * (n + 1)
         if f["B"]:
             for j in range(1, n + 1):
@@ -211,85 +258,103 @@ class MTVRPAdapter(RoutingAdapter):
             need = max(D[0][j] + (0 if opn else D[j][0]) for j in range(1, n + 1))     # keeps the instance solvable
             lim_u = cost + delta if site == "limit" else cost + rng.choice([0, 3, 40, 400])
             limit = max(lim_u, need) / U
-        # ---- time windows (units of 1/128)
+        # ---- time windows (units of 1/128; travel times may be half units at speed 2)
         tw, svc = None, None
         if f["TW"]:
+            F = Fraction
+            depot_site = site in ("twd", "odep")
             svc_u = [0] + [rng.choice([0, 0, 4, 8, 19]) for _ in range(n)]
-            if site in ("twd", "odep"):
+            if depot_site:
                 for j in route:
                     svc_u[j] = rng.choice([4, 8, 19])      # so that a dropped service time shows at the depot deadline
-            lo_u = [0] * (n + 1)
+            lo_u = [F(0)] * (n + 1)
             hi_u = [None] * (n + 1)
-            t = Fraction(0)
+            t = F(0)
             arr = {}
             prev = 0
-            for j in route:
+            for k, j in enumerate(route):
                 a = t + T[prev][j]
                 arr[j] = a
-                mode = rng.choice(["free", "free", "wait", "early"])
+                if depot_site and k == len(route) - 1:
+                    mode = rng.choice(["free", "wait"])          # the last customer is served on arrival / after waiting
+                else:
+                    mode = rng.choice(["free", "free", "wait", "early"])
                 if mode == "wait":
-                    lo_u[j] = int(a) + rng.choice([1, 2, 8])          # vehicle waits
+                    lo_u[j] = F(int(a) + rng.choice([1, 2, 8]))          # vehicle waits
                 elif mode == "early":
-                    lo_u[j] = max(0, int(a) - rng.choice([0, 1, 5]))
-                st = max(a, Fraction(lo_u[j]))
+                    lo_u[j] = F(max(0, int(a) - rng.choice([0, 1, 5])))
+                st = max(a, lo_u[j])
                 t = st + svc_u[j]
                 prev = j
             ret = t + T[prev][0]
-            horizon = int(ret) + 600
             for j in range(1, n + 1):
                 direct = T[0][j]
                 if j in arr and site == "twc" and j == route[-1]:
-                    h = int(arr[j]) + delta if arr[j].denominator == 1 else int(arr[j]) + 1
+                    h = arr[j] + delta                                    # tight customer deadline
                 elif j in arr:
-                    h = int(max(arr[j], lo_u[j])) + rng.choice([1, 7, 60, 300])
+                    h = max(arr[j], lo_u[j]) + (rng.choice([300, 500]) if depot_site else rng.choice([1, 7, 60, 300]))
                 else:
-                    lo_u[j] = rng.choice([0, 0, int(direct) + 3])
-                    h = int(max(direct, lo_u[j])) + rng.choice([1, 30, 300])
-                # strictly reachable on a route of its own, window of positive length
-                h = max(h, int(direct) + 1, lo_u[j] + 1)
-                hi_u[j] = h
-            single = max(int(max(T[0][j], lo_u[j]) + svc_u[j] + T[j][0]) + 1 for j in range(1, n + 1))
+                    if not depot_site:
+                        lo_u[j] = F(rng.choice([0, 0, int(direct) + 3]))
+                    h = max(direct, lo_u[j]) + (300 if depot_site else rng.choice([1, 30, 300]))
+                # reachable on a route of its own (equality allowed: the mask compares with <=), window of positive length
+                hi_u[j] = max(h, direct, lo_u[j] + 1)
+            single = max(max(T[0][j], lo_u[j]) + svc_u[j] + T[j][0] for j in range(1, n + 1))
             if opn:
                 if site == "odep":
                     # passes the checker's data assert (lo + d_j0 + service <= hi_0) with little room
                     h0 = max(lo_u[j] + D[j][0] + svc_u[j] for j in range(1, n + 1)) + rng.choice([0, 1, 5])
                     h0 = max(h0, 1)
                 else:
-                    h0 = horizon + single
+                    h0 = ret + 600 + single
             else:
-                h0 = int(ret) + delta if (site == "twd" and ret.denominator == 1) else horizon
-                h0 = max(h0, single)          # every customer can be served alone and the vehicle be back strictly in time
-            hi_u[0] = h0
-            tw = [[lo_u[j] / U, hi_u[j] / U] for j in range(n + 1)]
-            svc = [s / U for s in svc_u]
+                h0 = ret + delta if site == "twd" else ret + 600
+                h0 = max(h0, single)          # every customer can be served alone and the vehicle be back in time
+            hi_u[0] = F(h0)
+            tw = [[float(F(lo_u[j]) / U), float(F(hi_u[j]) / U)] for j in range(n + 1)]
+            svc = [s_ / U for s_ in svc_u]
         return self.mk_td(pts, [v / Q for v in dl], [v / Q for v in db], 1.0, limit, opn, tw, svc, speed), route
 
     # ---------------------------------------------------------------- target walks: the tight step is actually taken
+    def admitted_prefix(self, env, td_in, wanted):
+        """the longest prefix of [wanted] that the real mask admits step by step"""
+        td = env.reset(td_in.clone())
+        prefix = []
+        for a in wanted:
+            if bool(td["done"].reshape(-1)[0]) or not bool(td["action_mask"][0, a]):
+                break
+            td.set("action", torch.tensor([a], dtype=torch.int64))
+            td = env.step(td)["next"]
+            prefix.append(a)
+        return prefix
+
     def extra_items(self, ctx, pid, tier):
-        """one more episode per exact-grid instance: follow the target route (around which the tight constraint was
-        built) as far as the mask admits it, then go on with a chooser"""
+        """two more episodes per exact-grid instance, following the target route (around which the tight constraint was
+        built) as far as the mask admits it: (a) first thing, closed by an explicit depot visit, then on with a chooser;
+        (b) after every other customer has been served on a route of its own, so that the tight step is the last step of
+        the episode (the row is done at a customer; no depot visit follows)"""
         from vt.envprops import Item
         rng = ctx.rng
         out = []
         for env, variant, td_in, meta in getattr(self, "_exact", []):
-            td = env.reset(td_in.clone())
-            prefix = []
-            for a in list(meta["target_route"]) + [0]:
-                if not bool(td["action_mask"][0, a]):
-                    break
-                td.set("action", torch.tensor([a], dtype=torch.int64))
-                td = env.step(td)["next"]
-                prefix.append(a)
-                if bool(td["done"].reshape(-1)[0]):
-                    break
-            ch = rng.choice(["uniform", "depot_last", "depot_first"])
-            eps, td_reset, td_fin, actions = envh.rollout(env, td_in, rng, choosers=[ch], forced=[prefix],
-                                                          pad_steps=rng.choice([0, 1]), max_steps=self.max_steps(variant))
-            envh.rewards_and_verdicts(env, td_fin, td_reset, actions, eps, self.reward_td)
-            out.append(Item(self, variant, env, td_in, td_reset, eps[0], dict(meta, chooser="target+" + ch, admitted_prefix=len(prefix)), "solo"))
-            ctx.count("%s/%s/target_walks" % (self.name, self.variant_tag(variant)))
-            if len(prefix) == len(meta["target_route"]) + 1:
-                ctx.count("%s/target_route_fully_admitted" % self.name)
+            route = list(meta["target_route"])
+            n = td_in["locs"].shape[1] - 1
+            others = [j for j in range(1, n + 1) if j not in route]
+            rng.shuffle(others)
+            plans = [("a", route + [0])]
+            if others:
+                plans.append(("b", [x for j in others for x in (j, 0)] + route))
+            for tag, wanted in plans:
+                prefix = self.admitted_prefix(env, td_in, wanted)
+                ch = rng.choice(["uniform", "depot_last", "depot_first"])
+                eps, td_reset, td_fin, actions = envh.rollout(env, td_in, rng, choosers=[ch], forced=[prefix],
+                                                              pad_steps=rng.choice([0, 1]), max_steps=self.max_steps(variant))
+                envh.rewards_and_verdicts(env, td_fin, td_reset, actions, eps, self.reward_td)
+                out.append(Item(self, variant, env, td_in, td_reset, eps[0],
+                                dict(meta, chooser="target-%s+%s" % (tag, ch), admitted_prefix=len(prefix)), "solo"))
+                ctx.count("%s/%s/target_walks_%s" % (self.name, self.variant_tag(variant), tag))
+                if len(prefix) == len(wanted):
+                    ctx.count("%s/target_route_fully_admitted_%s" % (self.name, tag))
         return out
 
     # ---------------------------------------------------------------- Coq encoding
@@ -347,8 +412,8 @@ class MTVRPAdapter(RoutingAdapter):
             return False
         D = self.dist_matrix(td)
         return (on_grid(td["locs"], U) and on_grid(D, U) and on_grid(td["demand_linehaul"], Q) and on_grid(td["demand_backhaul"], Q)
-                and on_grid(td["vehicle_capacity"], Q) and on_grid(td["distance_limit"], U) and on_grid(td["time_windows"], U)
-                and on_grid(td["service_time"], U))
+                and on_grid(td["vehicle_capacity"], Q) and on_grid(td["distance_limit"], U) and on_grid(td["time_windows"], 2 * U)
+                and on_grid(td["service_time"], 2 * U))
 
     def coq_instance(self, env, td_reset, variant):
         if not self.dist_consistent(td_reset):
@@ -601,7 +666,7 @@ class MTVRPAdapter(RoutingAdapter):
         out = self.flags(ctx, items)
         rng = ctx.rng
         limit = self.tiny if tier == "quick" else self.tiny + 1
-        budget = 10 if tier == "quick" else 40
+        budget = 12 if tier == "quick" else 24
         # exact-grid tiny instances, spread over the presets; then the hand-built boundary instances
         by_preset = {}
         seen = set()
@@ -616,6 +681,8 @@ class MTVRPAdapter(RoutingAdapter):
         pools = [v for _, v in sorted(by_preset.items())]
         for p in pools:
             rng.shuffle(p)
+            # popped from the end: instances with speed != 1 (time != distance) are enumerated first
+            p.sort(key=lambda it: float(it.td_in["speed"][0, 0]) != 1.0)
         while pools and len(chosen) < budget:
             for p in list(pools):
                 if p and len(chosen) < budget:
